@@ -27,6 +27,10 @@ Definition mklin (rows : list (list Qc)) (inv_rows : option (list (list Qc))) : 
      l_inv := option_map (mat_apply Qc Q0 Qcplus Qcmult) inv_rows |}.
 Definition mfun (rows : list (list Qc)) : qvec -> qvec := mat_apply Qc Q0 Qcplus Qcmult rows.
 
+(* embedding of a field on m pixels into a larger one: entry j goes to position pos[j] *)
+Definition mkemb (pos : list nat) (x : qvec) : qvec :=
+  fun i => fold_right (fun '(j, p) acc => if Nat.eqb p i then Qcplus (x j) acc else acc) Q0 (combine (seq 0 (length pos)) pos).
+
 Definition delta (b i : nat) : noise Qc := fun b' i' => if Nat.eqb b' b && Nat.eqb i' i then Q1 else Q0.
 
 (* the columns of T (real part, imaginary part) for the noise coordinates (b, i), b < nb, i < N *)
